@@ -53,6 +53,7 @@ const totalKeys = 16 // deposit stream: 8 genesis validators + up to 8 depositor
 
 type OpSpec struct {
 	V, Dst, I, P int
+	Huge         uint64 `json:",omitempty"` // when non-zero: the index of the call is this value (>= 2^62), I is ignored
 	Copy         bool `json:",omitempty"` // deposit stream: copy context V (otherwise ProcessDeposit of pubkey P on context V)
 }
 
@@ -214,6 +215,17 @@ func (c *childState) query(pc *common.PubkeyCache, npub, k int) table {
 		}
 		t.pubs = append(t.pubs, v)
 	}
+	// indices far beyond any registry must be unknown (and must not crash the lookup): a misbehaving probe is reported in
+	// the last table entry (index k-1 is beyond every history of the case) as "a pubkey the harness never inserted"
+	for _, h := range []uint64{1 << 63, 1<<63 + uint64(k), 1<<64 - 1, 1 << 62} {
+		known := false
+		if panicked, pv := Catch(func() { _, known = pc.Pubkey(common.ValidatorIndex(h)) }); panicked || known {
+			fmt.Fprintf(os.Stderr, "far-index probe Pubkey(%d): panicked=%v (%v) known=%v\n", h, panicked, pv, known)
+			if len(t.pubs) > 0 {
+				t.pubs[len(t.pubs)-1] = -1
+			}
+		}
+	}
 	for p := 0; p < npub; p++ {
 		idx, ok := pc.ValidatorIndex(c.keys[p])
 		v := int64(0)
@@ -275,6 +287,11 @@ func (c *childState) genOp(r *rng, spec *CaseSpec, tabs []table) OpSpec {
 	if i < 0 {
 		i = 0
 	}
+	var huge uint64
+	if r.chance(4) {
+		// far beyond any registry: indices arrive unchecked from the network; they must be refused, never crash
+		huge = []uint64{1 << 63, 1<<63 + uint64(ln), 1<<63 + 1, 1<<64 - 1, 1 << 62, 1<<63 - 1}[r.intn(6)]
+	}
 	nfree := 0
 	for q := 0; q < spec.NPub; q++ {
 		if t.idxs[q] == 0 {
@@ -325,7 +342,7 @@ func (c *childState) genOp(r *rng, spec *CaseSpec, tabs []table) OpSpec {
 	default:
 		dst = r.intn(len(tabs))
 	}
-	return OpSpec{V: v, Dst: dst, I: i, P: p}
+	return OpSpec{V: v, Dst: dst, I: i, P: p, Huge: huge}
 }
 
 func (c *childState) runCase(spec *CaseSpec) {
@@ -369,11 +386,21 @@ func (c *childState) runCase(spec *CaseSpec) {
 		} else {
 			op = c.genOp(r, spec, tabs)
 		}
-		c.emit(Event{T: "op", Op: &op, Class: classify(&tabs[op.V], op.I, op.P)})
+		cls := ""
+		if op.Huge != 0 {
+			cls = "gap_beyond_next_index"
+		} else {
+			cls = classify(&tabs[op.V], op.I, op.P)
+		}
+		c.emit(Event{T: "op", Op: &op, Class: cls})
 		var res *common.PubkeyCache
 		var err error
 		panicked, pv := Catch(func() {
-			res, err = vars[op.V].AddValidator(common.ValidatorIndex(op.I), c.keys[op.P])
+			callIdx := common.ValidatorIndex(op.I)
+			if op.Huge != 0 {
+				callIdx = common.ValidatorIndex(op.Huge)
+			}
+			res, err = vars[op.V].AddValidator(callIdx, c.keys[op.P])
 		})
 		switch {
 		case panicked:
@@ -1005,8 +1032,8 @@ func runC16(e *Env) error {
 					js = map[string]interface{}{"ProcessDeposit_on_context": st.Op.V, "pubkey": st.Op.P, "class": st.Class, "go": st.Go}
 				}
 			} else {
-				steps = append(steps, fmt.Sprintf("CStep %d %d %d %d %s [%s]", st.Op.V, st.Op.Dst, st.Op.I, st.Op.P, goRes(st.Go), strings.Join(obs, ";")))
-				js = map[string]interface{}{"AddValidator_on_var": st.Op.V, "store_in_var": st.Op.Dst, "index": st.Op.I, "pubkey": st.Op.P, "class": st.Class, "go": st.Go}
+				steps = append(steps, fmt.Sprintf("CStep %d %d %d %d %s [%s]", st.Op.V, st.Op.Dst, opIndex(&st.Op), st.Op.P, goRes(st.Go), strings.Join(obs, ";")))
+				js = map[string]interface{}{"AddValidator_on_var": st.Op.V, "store_in_var": st.Op.Dst, "index": opIndex(&st.Op), "pubkey": st.Op.P, "class": st.Class, "go": st.Go}
 			}
 			if st.Msg != "" {
 				js["msg"] = st.Msg
@@ -1064,3 +1091,10 @@ func replaySpec(path string) (*CaseSpec, error) {
 }
 
 var _ = io.EOF
+
+func opIndex(op *OpSpec) uint64 {
+	if op.Huge != 0 {
+		return op.Huge
+	}
+	return uint64(op.I)
+}
